@@ -1,9 +1,10 @@
 import JugModel.Props.C20
-#print axioms Jug.C20.precedence
-#print axioms Jug.C20.table_absent_none
-#print axioms Jug.C20.precedence_all
-#print axioms Jug.C20.store_true_hides_config
-#print axioms Jug.C20.common_options_uniform
 #print axioms Jug.C20.argv_shape
-#print axioms Jug.C20.expand_literal
+#print axioms Jug.C20.common_options_uniform
 #print axioms Jug.C20.expand_default_template
+#print axioms Jug.C20.expand_literal
+#print axioms Jug.C20.precedence
+#print axioms Jug.C20.precedence_all
+#print axioms Jug.C20.store_location
+#print axioms Jug.C20.store_true_hides_config
+#print axioms Jug.C20.table_absent_none
